@@ -135,9 +135,11 @@ def translate (p : Aff α) (d : List α) : Aff α := { p with bias := vadd p.bia
 
 def intersection (p q : Aff α) : Aff α := { mat := p.mat ++ q.mat, bias := p.bias ++ q.bias, indim := p.indim }
 
+/-- `intersection_n`: all rows of all operands (every `Polytope` has one bias entry per row, so
+    concatenating the matrices and the biases is concatenating the rows) -/
 def intersectionN (n : Nat) (ps : List (Aff α)) : Aff α :=
   if ps.isEmpty then unbounded n
-  else { mat := ps.flatMap (·.mat), bias := ps.flatMap (·.bias), indim := n }
+  else Aff.ofRows n (ps.flatMap Aff.rows)
 
 /-- `apply_pre`: `{x | f x ∈ P}` -/
 def applyPre (p f : Aff α) : Aff α :=
